@@ -137,8 +137,9 @@ package encoder
 //@   ensures err == nil ==> copied(dst, res, src, cursor, c)
 //@   ensures err == nil ==> forall k :: 0 <= k && k < len(dst) ==> res[k] == old(dst[k])
 //@   ensures forall k :: 0 <= k && k < len(src) ==> src[k] == old(src[k])
-// the token copied is the maximal floatTable run (grammar: lemma L-num) and it is copied verbatim
+// the token copied is the maximal floatTable run, it is a JSON number, and it is copied verbatim
 //@   ensures err == nil ==> len(res) == len(dst) + (c - cursor) && !floatChar(src[c])
+//@   ensures err == nil ==> numAccept(numRun(ptrOf(src) + cursor, c - cursor))
 //@   ensures err == nil ==> forall k :: 0 <= k && k < c - cursor ==> res[len(dst)+k] == old(src[cursor+k]) && (k == 0 || floatChar(old(src[cursor+k])))
 //@   assigns M
 //@   loop 1: invariant old(cursor) <= cursor && cursor < len(src) - 1
